@@ -125,9 +125,11 @@ static int sink_cb(const void *buf, size_t size, void *key) {
     if(s->fail_at >= 0 && s->calls == s->fail_at) { s->calls++; s->failed = 1; return -1; }
     s->calls++;
     if(s->n + size > s->cap) {
-        s->cap = (s->n + size) * 2 + 64;
-        s->p = (uint8_t *)realloc(s->p, s->cap);
-        if(!s->p) { fprintf(stderr, "driver: out of memory\n"); exit(3); }
+        size_t ncap = (s->n + size) * 2 + 64;
+        uint8_t *np = (uint8_t *)realloc(s->p, ncap);
+        if(!np) { s->failed = 1; return -1; }   /* also reached by injected allocation faults: a legal callback failure */
+        s->p = np;
+        s->cap = ncap;
     }
     if(size) memcpy(s->p + s->n, buf, size);
     s->n += size;
